@@ -141,6 +141,7 @@ structure CountersOK (size : Nat) (c : Counters) (rest : Bytes) : Prop where
   off_le : c.offsetBytes ≤ 8
   cells_lt : c.cellsCount < 4294967296
   roots_lt : c.rootsCount < 4294967296
+  roots_ge : 1 ≤ c.rootsCount
   tot_le : c.totCellsSize ≤ rest.length
   cells_le : c.cellsCount ≤ c.totCellsSize / 2
 
@@ -194,13 +195,16 @@ theorem parseCounters_spec (size : Nat) (boc : Bytes) (s : Nat) :
   apply spec_ite
   · intro _; exact spec_fail rfl
   intro hcl
+  apply spec_ite
+  · intro _; exact spec_fail rfl
+  intro hr1
   apply spec_pure
   have hp := pow256_le size (by omega)
   have := readN_lt _ _ _ hcc
   have := readN_lt _ _ _ hrc
   have htl' := (hasAtLeast_iff _ _).1 (by simpa using htl)
   simp only [List.length_drop] at htl'
-  refine ⟨rfl, ⟨?_, ?_, ?_, ?_, ?_, ?_, ?_, ?_⟩, ?_⟩ <;> (try dsimp only) <;> (try simp only [List.length_drop]) <;> omega
+  refine ⟨rfl, ⟨?_, ?_, ?_, ?_, ?_, ?_, ?_, ?_, ?_⟩, ?_⟩ <;> (try dsimp only) <;> (try simp only [List.length_drop]) <;> omega
 
 
 theorem mulI_nat (a b : Nat) (h : a * b < two63) : mulI (a : Int) (b : Int) = ((a * b : Nat) : Int) := by
